@@ -653,3 +653,91 @@ Theorem C17_dedup_hypothesis_needed :
     V.Model.DedupPerm.new_paths (renumber pi r) = Ok [["a"; "F"]; []; []; ["a"; "F"]; ["a"; "F"]]%string.
 Proof. exact V.Proofs.DedupPerm.dedup_hypothesis_needed. Qed.
 Print Assumptions C17_dedup_hypothesis_needed.
+
+(** ** restriction: example values and the converse typing direction
+    (Proofs/ExampleRestrictValue.v, Proofs/HasTypeFuel.v; these settle the two items
+    [C17_has_type_restriction_partial] lists as not proved). *)
+From V Require Proofs.ExampleRestrictValue Proofs.HasTypeFuel.
+
+(** the run of the example transformer commutes with a renumbering: same value, same remaining
+    words, cache keys renamed, the two errors that carry an id carry the renamed id ([equiv],
+    Proofs/ExampleRestrictValue.v: [x' (mapst s) = mapres (x s)] for every state [s]) *)
+Theorem C17_example_run_renumber :
+  forall pi r, renumbering (N.of_nat (List.length r)) pi ->
+    forall fuel id,
+      V.Proofs.ExampleRestrictValue.equiv pi
+        (V.Model.ExampleValue.resolve_go fuel (renumber pi r) (pi id))
+        (V.Model.ExampleValue.resolve_go fuel r id).
+Proof. exact V.Proofs.ExampleRestrictValue.resolve_go_renumber. Qed.
+Print Assumptions C17_example_run_renumber.
+
+(** C17_restriction (examples): the example generated from a word stream on the restricted
+    registry at the retained id [pi id] is THE example generated from the same word stream on the
+    full registry at [id].  No hypothesis on the registry.  PARTIAL: one direction - a successful
+    restricted run is the same successful full run; that a successful full run (or a failing one)
+    is reproduced by the restricted registry needs closedness and is not proved here (it is
+    evaluated per retained id and seed by [prop_example_retained]).  With [C12_returns] on the
+    restricted registry both examples exist and are equal: [C17_example_restriction_same_value_safe]. *)
+Theorem C17_example_restriction_same_value_partial :
+  forall pi k r id ws v,
+    renumbering (N.of_nat (List.length r)) pi ->
+    V.Model.ExampleValue.example_value (restrict pi k r) (pi id) ws = V.Model.ExampleValue.XOk v ->
+    V.Model.ExampleValue.example_value r id ws = V.Model.ExampleValue.XOk v.
+Proof. exact V.Proofs.ExampleRestrictValue.example_restriction_same_value. Qed.
+Print Assumptions C17_example_restriction_same_value_partial.
+
+Theorem C17_example_restriction_same_value_safe :
+  forall pi k r id ws,
+    renumbering (N.of_nat (List.length r)) pi ->
+    V.Model.ExampleValue.safeb (restrict pi k r) (pi id) = true ->
+    (exists v, V.Model.ExampleValue.example_value (restrict pi k r) (pi id) ws = V.Model.ExampleValue.XOk v /\
+               V.Model.ExampleValue.example_value r id ws = V.Model.ExampleValue.XOk v) \/
+    V.Model.ExampleValue.example_value (restrict pi k r) (pi id) ws =
+      V.Model.ExampleValue.XErr V.Model.ExampleValue.XOutOfWords.
+Proof. exact V.Proofs.ExampleRestrictValue.example_restriction_same_value_safe. Qed.
+Print Assumptions C17_example_restriction_same_value_safe.
+
+(** typing only follows reachable ids: on a CLOSED restricted registry ([closed], what scale-info's
+    [retain] guarantees) the checker of the restricted registry at a retained id [pi id] and the
+    checker of the full registry at [id] agree at EVERY fuel *)
+Theorem C17_has_type_fuel_restriction :
+  forall pi k r, renumbering (N.of_nat (List.length r)) pi -> closed (restrict pi k r) ->
+    forall f id v, in_reg (restrict pi k r) (pi id) ->
+      V.Model.ExampleValue.has_type_fuel f (restrict pi k r) (pi id) v =
+      V.Model.ExampleValue.has_type_fuel f r id v.
+Proof. exact V.Proofs.ExampleRestrictValue.has_type_fuel_restriction. Qed.
+Print Assumptions C17_has_type_fuel_restriction.
+
+(** the fuel bound: the fuel of [has_typeb] ([value_depth v * S (length r)], which depends on the
+    size of the registry) is enough whenever any fuel is - a successful check follows, between two
+    value levels, a chain of compact entries that cannot revisit an id *)
+Theorem C17_has_type_fuel_enough :
+  forall r F id v,
+    V.Model.ExampleValue.has_type_fuel F r id v = true -> V.Model.ExampleValue.has_typeb r id v = true.
+Proof. exact V.Proofs.HasTypeFuel.has_type_fuel_enough. Qed.
+Print Assumptions C17_has_type_fuel_enough.
+
+(** C17_restriction (example validity), the CONVERSE direction of
+    [C17_has_type_restriction_partial]: a value typed by the FULL registry at [id] is typed by the
+    closed restricted registry at the retained id [pi id] - by its checker (with its own, smaller
+    fuel) and in the relation of C12.  Nothing is missing under the stated hypotheses (closed
+    restricted registry, retained id), hence no [_partial]. *)
+Theorem C17_has_type_restriction_converse :
+  forall pi k r id v,
+    renumbering (N.of_nat (List.length r)) pi -> closed (restrict pi k r) ->
+    in_reg (restrict pi k r) (pi id) ->
+    V.Model.ExampleValue.has_typeb r id v = true ->
+    V.Model.ExampleValue.has_typeb (restrict pi k r) (pi id) v = true /\
+    V.Model.ExampleValue.has_type (restrict pi k r) (pi id) v.
+Proof. exact V.Proofs.HasTypeFuel.has_typeb_restriction_converse. Qed.
+Print Assumptions C17_has_type_restriction_converse.
+
+(** both directions: "example validity for retained ids is unchanged" as an equation between the
+    two verdicts *)
+Theorem C17_has_type_restriction_eq :
+  forall pi k r id v,
+    renumbering (N.of_nat (List.length r)) pi -> closed (restrict pi k r) ->
+    in_reg (restrict pi k r) (pi id) ->
+    V.Model.ExampleValue.has_typeb (restrict pi k r) (pi id) v = V.Model.ExampleValue.has_typeb r id v.
+Proof. exact V.Proofs.HasTypeFuel.has_typeb_restriction_eq. Qed.
+Print Assumptions C17_has_type_restriction_eq.
